@@ -282,7 +282,7 @@ class t2data(object):
     def get_extra_precision(self): return self._extra_precision
     def set_extra_precision(self, value):
         if value is False: value = []
-        elif value is True: value = t2_extra_precision_sections
+        elif value is True: value = list(t2_extra_precision_sections) # (copy)
         elif isinstance(value, str): value = [value]
         # check if removing any extra precision sections:
         for section in set(self._extra_precision) - set(value):
